@@ -48,6 +48,13 @@ def check(ctx):
                     ok, v = prog.try_fold(y.right, pdu)
                     if ok:
                         cont.add(v)
+    if not cont:
+        # the test written on the whole byte (byte < 0x80 / byte >= 0x80): the bit the primitives' analysis found
+        from ..codec_prims import check_primitives
+        _, facts = check_primitives(prog)
+        t = (facts.get("length") or ({}, {}))[1].get("test")
+        if isinstance(t, int):
+            cont.add(t)
     n_disp = 0
     for cls in a.protos:
         cat = catalogue(a, cls)
